@@ -42,7 +42,7 @@ def _run_case(args):
             r = subprocess.run([sys.executable, "-m", "py_compile", os.path.join(dst, rel)], capture_output=True, text=True)
             if r.returncode != 0:
                 return cid, pid, kind, "BROKEN", "variant does not compile"
-        env = dict(os.environ, SA_NO_CACHE="1", SA_JOBS="2")
+        env = dict(os.environ, SA_NO_CACHE="1", SA_JOBS="2", VERIF_TIER="quick")      # the variant is judged by the quick rules (no recursion into the thorough tier)
         r = subprocess.run([sys.executable, "-m", "sa.cli", pid, "--repo", dst, "--no-evidence", "--jobs", "2"], cwd=VERIF, capture_output=True, text=True, env=env, timeout=900)
         out = r.stdout + r.stderr
         viol = [l for l in out.splitlines() if l.startswith("  ") and "rule=" in l]
@@ -61,6 +61,16 @@ def _run_case(args):
         return cid, pid, kind, "BROKEN", f"{type(e).__name__}: {e}"
     finally:
         shutil.rmtree(tmp, ignore_errors=True)
+
+
+def run_slice(pid: str, repo: str, jobs: int = 8) -> list:
+    """results [(case id, kind, verdict, detail)] of the property's slice of the battery (used by the thorough tier)"""
+    cases = [c for c in CASES if c["property"] == pid.upper()]
+    out = []
+    with cf.ProcessPoolExecutor(max_workers=max(1, min(jobs, 8))) as ex:
+        for cid, _pid, kind, verdict, detail in ex.map(_run_case, [(c, repo) for c in cases]):
+            out.append((cid, kind, verdict, detail))
+    return out
 
 
 def main(only: str | None, repo: str, jobs: int) -> int:
